@@ -474,6 +474,7 @@ def _r043(ctx: Ctx) -> None:
 def run(ctx: Ctx) -> None:
     ctx.rule('R04.1', 'success <=> in codespace and no logical error (truth tables of every success test)', floor=6)
     ctx.rule('R04.2', 'in_codespace = all syndrome bits zero; is_logical_error = some logical effect bit set', floor=2)
+    ctx.rule('R04.4', 'logicals / parity checks cached on the code are never modified after initialisation', floor=100)
     ctx.rule('R04.3', 'logical effect = [X-effects | Z-effects], X-effect = product with logicals_z, in every '
                       'shape branch and at every producer', floor=19)
     ctx.trust('numpy concatenate/array/transpose/reshape semantics (performed on symbolic object arrays)',
@@ -482,3 +483,5 @@ def run(ctx: Ctx) -> None:
     _inline_success_sites(ctx)
     _r042(ctx)
     _r043(ctx)
+    from .c06 import code_state_rule
+    code_state_rule(ctx, 'R04.4')
